@@ -263,41 +263,69 @@ theorem sharded_uses_previous_preconditioner (sqrt : α → α) (nc : Nat → α
         specUpdate sqrt nc false G h step skip g param st after after := by
   refine ⟨rfl, rfl, rfl⟩
 
-/-- `Low` refines `Spec` — assembled from the pieces above, for one parameter and one `update` call:
-(1) the statistics lists are equal; (2) for EVERY block of the parameter's rank the block handed to
-`merge_partitions` by the code has the same shape and the same entry at every index as the documented mode
-products with the documented slots; (3) given equal preconditioned gradients, the code's `_transform_grad` equals
-the documented pipeline.
-PARTIAL: the remaining glue "(2) for all blocks ⇒ `lowPrecondGrad = specPrecondGrad`" — congruence of
-`merge_partitions` and the final reshape (both models call the SAME C06 functions on the block lists) with respect
-to index-wise equality — is not proved; the driver evaluates both sides on every case and the harness requires
-them to be equal (`model.low_eq_spec[EXACT]`). -/
-theorem low_refines_spec_partial (sqrt : α → α) (nc : Nat → α) (G : Geom) (h : Hyper α) (w1 w2 : α)
-    (si step : Nat) (skip : Bool) (stats P : List (Mx α)) (g param : List α) (st : PState α) :
+/-- `Preconditioner.preconditioned_grad` (reshape, partition, `_preconds_for_grad` slots, rotate-and-tensordot per
+block, `merge_partitions`, reshape) equals the documented blocked mode products, for every rank, block layout,
+merging and preconditioner type; and the `assert len(partitions) == 1` of `merge_partitions` never fails. -/
+theorem preconditioned_grad_low_eq_spec (G : Geom) (P : List (Mx α)) (g : List α) :
+    lowPrecondGrad G P g = specPrecondGrad G P g ∧ (specPrecondGrad G P g).isSome = true :=
+  lowPrecondGrad_eq_specPrecondGrad G P g
+
+/-- **`Low` refines `Spec`** for one parameter and one `update` call, between the state boundaries: the statistics
+lists are equal, and the whole update half (preconditioned gradient with the preconditioners of the mode —
+previous refresh when sharded —, graft, rescale, weight decay, momenta, selection, Nesterov, learning rate: update
+AND new first-order state) of the code-shaped model equals the documented math, whenever the vectors of the
+parameter have `prod shape` entries. -/
+theorem low_refines_spec (sqrt : α → α) (nc : Nat → α) (sharded : Bool) (G : Geom) (h : Hyper α) (w1 w2 : α)
+    (si step : Nat) (skip : Bool) (stats before after : List (Mx α)) (g param : List α) (st : PState α)
+    (hgr : (dsGraftStep sqrt nc h.g g st.diag).1.length = prod G.shape) (hg : g.length = prod G.shape)
+    (hp : param.length = prod G.shape) (hm : st.mom.length = prod G.shape)
+    (hdm : st.dmom.length = prod G.shape) :
     lowStats G w1 w2 si step stats g = specStats G w1 w2 si step stats g ∧
-    (∀ (b : Nat) (gb : Tensor α), gb.shape.length = G.rank →
-      (lowBlock gb (slotMats P Mx.zero (lowSlots G.ptype G.rank b))).shape =
-          (specBlock gb (slotMats P Mx.zero (specSlots G.ptype G.rank b))).shape ∧
-        ∀ idx : List Nat, idx.length = G.rank →
-          (lowBlock gb (slotMats P Mx.zero (lowSlots G.ptype G.rank b))).get idx =
-            (specBlock gb (slotMats P Mx.zero (specSlots G.ptype G.rank b))).get idx) ∧
-    (∀ (pg : List α) (n : Nat), (dsGraftStep sqrt nc h.g g st.diag).1.length = n → param.length = n →
-      pg.length = n → st.mom.length = n → st.dmom.length = n →
-      lowTransform sqrt nc h step skip g param st pg = specTransform sqrt nc h step skip g param st pg) := by
-  refine ⟨lowStats_eq_specStats G w1 w2 si step stats g, ?_, ?_⟩
-  · intro b gb hgb
-    rw [lowSlots_eq_specSlots]
-    have hl : (slotMats P Mx.zero (specSlots G.ptype G.rank b)).length = gb.shape.length := by
-      simp [slotMats, specSlots, hgb]
-    obtain ⟨h1, h2, h3⟩ := lowBlock_eq_specBlock gb _ hl
-    exact ⟨h1.trans h2.symm, fun idx hi => h3 idx (hi.trans hgb.symm)⟩
-  · intro pg n h1 h2 h3 h4 h5
-    exact lowTransform_eq_specTransform sqrt nc h step skip g param st pg n h1 h2 h3 h4 h5
+    lowUpdate sqrt nc sharded G h step skip g param st before after =
+      specUpdate sqrt nc sharded G h step skip g param st before after :=
+  ⟨lowStats_eq_specStats G w1 w2 si step stats g,
+   lowUpdate_eq_specUpdate sqrt nc sharded G h step skip g param st before after hgr hg hp hm hdm⟩
 
 end Update
 
+/-! ### the compressed branch (`compression_rank ≠ 0`) -/
+
+/-- One iteration of `_precondition_block` in its compressed branch (low-rank basis, complement, scaled component,
+`where(skip, …)`) equals the dense branch `tensordot(g, M, [[0],[0]])` with `M` the matrix the packed preconditioner
+denotes, `c (I − V Vᵀ) + V diag(e) Vᵀ` — the identity when the preconditioner is flagged — for ANY packed content
+(no orthogonality needed) and every tensor rank. -/
+theorem compressed_branch_eq_denoted_dense {α : Type} [CommRing α] [BEq α] (g : Tensor α) (d r : Nat) (P : Mx α) :
+    packedStep g d r P = tensordot0 g (denoteStored (.packed d r P)) :=
+  packedStep_eq_tensordot0 g d r P
+
+/-- The denoted matrix is C10's `denote` of the fields `_low_rank_unpack` reads, so C10's theorems
+(`denote_is_documented_matrix`, `low_rank_root_denotes`) are about the very matrix the Spec multiplies with. -/
+theorem denoted_matrix_is_C10_denote {α : Type} [CommRing α] (d r : Nat) (P : Mx α) (i b : Fin d) :
+    denoteMx r P i.val b.val =
+      LowRank.denote (fun (i : Fin d) (q : Fin r) => P i.val q.val) (fun q => pkE r P q.val) (pkC r P) i b :=
+  denoteMx_eq_C10_denote d r P i b
+
+section UpdateC
+variable {α : Type} [Field α] [LinearOrder α] [IsStrictOrderedRing α] [Inhabited α]
+
+/-- **`Low` refines `Spec`, compressed preconditioners included**: the update half of the code-shaped model on
+STORED preconditioners (each square, or packed `d × (r+2)`; any mixture over the slots) equals the documented math
+applied to the matrices they denote. -/
+theorem low_refines_spec_compressed (sqrt : α → α) (nc : Nat → α) (sharded : Bool) (G : Geom) (h : Hyper α)
+    (step : Nat) (skip : Bool) (g param : List α) (st : PState α) (before after : List (Stored α))
+    (hgr : (dsGraftStep sqrt nc h.g g st.diag).1.length = prod G.shape) (hg : g.length = prod G.shape)
+    (hp : param.length = prod G.shape) (hm : st.mom.length = prod G.shape)
+    (hdm : st.dmom.length = prod G.shape) :
+    lowUpdateC sqrt nc sharded G h step skip g param st before after =
+      specUpdate sqrt nc sharded G h step skip g param st (before.map denoteStored) (after.map denoteStored) :=
+  lowUpdateC_eq_specUpdate sqrt nc sharded G h step skip g param st before after hgr hg hp hm hdm
+
+end UpdateC
+
 /-! ### non-vacuity -/
 
+example : (dsGraftStep (fun x : Rat => x) (fun n => (n : Rat)) ⟨.sgd, 1, 0, 0, 1, true, none, 0⟩ [1, 2, 3, 4, 5, 6] []).1.length = prod [2, 3] := by
+  decide
 example : lowSlots .input 3 2 = [some 4, some 5, none] ∧ specSlots .output 3 2 = [none, none, some 2] := by decide
 example : (({ shape := [2, 3, 4], block := 2, mergeBlock := 6, bestEffort := true, ptype := .all } : Geom).tshape = [6, 4]) ∧
     (({ shape := [2, 3, 4], block := 2, mergeBlock := 6, bestEffort := true, ptype := .input } : Geom).exponent 0 = 2) := by
